@@ -168,7 +168,7 @@ func c03CmdCase(r *Rand) string {
 		sortName = Pick(r, []string{"text", "value", "numeric", "text:rev"})
 	default:
 		delim = Pick(r, []string{"\x00", "\x00", "\x00", ",", "::", "\t"})
-		sortName = Pick(r, []string{"text", "text", "value", "value:asc", "VALUE:rev", "Text"})
+		sortName = Pick(r, []string{"text", "text", "value", "value:asc", "VALUE:rev", "Text", "VALUE", "Value:desc", "vAlUe:ASC", "TEXT:asc"})
 		if name == "spark" && r.Chance(1, 6) {
 			flags |= 2
 		}
@@ -290,4 +290,9 @@ var c03CmdCorpus = []string{
 	// nothing matches: exit status 1, header-only CSV
 	"cmd heatmap 1,1,1,0 0 20 0 10 74657874 00 3 .",
 	"cmd histo 1,1,1,0 4 5 0 0 76616c7565 00 0 2c;22;0d2e",
+	// spark --sort-cols VALUE / Value:desc --cols 2 (seeded/C03-sortsbyvalue-case): an upper-case spelling of the value order is
+	// value-ordered for the trim guard too – nothing is trimmed, `,a,b,c / r,11,5,7`
+	"cmd spark 1,1,1,0 0 20 0 2 56414c5545 00 0 610072003131;6200720035;630072;6300720036",
+	"cmd spark 2,2,1,1 0 20 0 2 56616c75653a64657363 00 0 610072003131;6200720035|630072;6300720036",
+	"cmd spark 1,1,1,0 0 20 0 1 54455854 00 0 610072;620072",
 }
